@@ -293,7 +293,10 @@ func (fb *functionBuilder) emitDiv(ky bool, x, y, z int8, kind reflect.Kind, pos
 // emitField appends a new "Field" instruction to the function body.
 //
 //	c = a.field
-func (fb *functionBuilder) emitField(a, field, c int8, dstKind reflect.Kind) {
+func (fb *functionBuilder) emitField(a, field, c int8, dstKind reflect.Kind, pos *ast.Position) {
+	if pos != nil {
+		fb.addPosAndPath(pos)
+	}
 	fb.addOperandKinds(0, 0, dstKind)
 	fb.fn.Body = append(fb.fn.Body, runtime.Instruction{Op: runtime.OpField, A: a, B: field, C: c})
 }
@@ -736,7 +739,10 @@ func (fb *functionBuilder) emitSend(ch, v int8, pos *ast.Position, chanElemKind 
 // emitSetField appends a new "SetField" instruction to the function body.
 //
 //	s.field = v
-func (fb *functionBuilder) emitSetField(k bool, s, field, v int8, fieldKind reflect.Kind) {
+func (fb *functionBuilder) emitSetField(k bool, s, field, v int8, fieldKind reflect.Kind, pos *ast.Position) {
+	if pos != nil {
+		fb.addPosAndPath(pos)
+	}
 	fb.addOperandKinds(fieldKind, 0, 0)
 	op := runtime.OpSetField
 	if k {
